@@ -26,7 +26,7 @@ Definition scalar_variants (k : skind) : list val :=
 (* two distinct keys per key kind whose text form parses back to them *)
 Definition key_variants (k : skind) : list val :=
   match k with
-  | SInt i => if is_signed i then [VInt 1; VInt (-3)] else [VInt 1; VInt 3]
+  | SInt i => if is_signed i then [VInt 1; VInt (-3)] else [VInt 1; VInt (kmax i)]   (* the largest key: above 2^63 for uint64 *)
   | SByte => [VInt 1; VInt 3]
   | SF32 => [fl 3 (-1); fl 2 0]
   | SF64 => [fl 3 (-1); fl 16777217 0]      (* 2^24+1: exact in float64, not representable in float32 *)
@@ -133,7 +133,8 @@ Fixpoint paths (n : node) (v : val) {struct n} : list tagged :=
         | VMap _ kvs, Some kn, Some vn =>
           flat_map (fun kv => pre (key_text (fst kv)) (paths vn (snd kv))) kvs ++
           (if is_string_key kn then [(["zz"], "absent"); (["zz"; "q"], "absent")]
-           else [(["77"], "absent"); (["77"; "q"], "absent"); (["x!"], "unparsable"); ([""], "unparsable"); (["0x1"], "absent")])
+           else [(["77"], "absent"); (["77"; "q"], "absent"); (["x!"], "unparsable"); ([""], "unparsable"); (["0x1"], "absent");
+                 (["-1"], "negkey"); (["-255"], "negkey"); (["256"], "widekey"); (["18446744073709551616"], "hugekey")])
         | _, _, _ => []
         end
       | typeSlice =>
